@@ -98,8 +98,23 @@ def run(tier, seed):
                 if variant == 2:                       # through a restart
                     k = rnd.randint(0, len(h))
                     h = h[:k] + [{"op": "restart"}] + h[k:]
+                # targeted queries: every binding any command of this history ever named (also the ones a later redeploy or
+                # removal took away again) is asked for, at the prefix and below it
+                tq, seen = [], set()
+                for c in h:
+                    if c.get("op") != "deploy":
+                        continue
+                    for hh in (c["hosts"] or [b"other"]):
+                        ch = hh.replace(b"*", b"w") if hh.startswith(b"*") else hh
+                        for pp in (c["prefixes"] or [b"/"]):
+                            np = b"/" + pp.strip(b"/")
+                            for path in (np, np.rstrip(b"/") + b"/zz"):
+                                if (ch, path) not in seen and len(tq) < 40:
+                                    seen.add((ch, path))
+                                    tq.append({"host": ch, "uri": path, "tls": False, "cookie": None, "method": "GET"})
                 hists.append(h)
-                mats.append([[] for _ in h[:-1]] + [reqs])
+                # the targeted queries after EVERY command (a stale index may be healed by a later rebuild), the matrix at the end
+                mats.append([list(tq) for _ in h[:-1]] + [reqs + tq])
         harness_ok, gout, outs = m4check.go_run(work, hists, mats)
         results = []
         if harness_ok and ok:
